@@ -730,6 +730,7 @@ func (fv *FV) execInstr(st *State, in ssa.Instruction, rest func(*State)) bool {
 		sort := fv.u.sortOf(et, fv.bv)
 		r := fv.newRef(st, "new")
 		fv.setHeap(st, sort, fmt.Sprintf("(store %s %s %s)", fv.heap(st, sort), r, fv.u.zero(sort)))
+		fv.zeroGhostFields(st, et, r)
 		fv.bind(st, x, Val{T: r, S: "Int", Typ: x.Type()})
 	case *ssa.BinOp:
 		fv.bind(st, x, fv.binOp(st, x))
@@ -1055,4 +1056,24 @@ func namedOf(t types.Type) *types.Named {
 	}
 	n, _ := t.(*types.Named)
 	return n
+}
+
+// zeroGhostFields: ghost fields of a freshly allocated object start at their zero value.
+func (fv *FV) zeroGhostFields(st *State, t types.Type, ref string) {
+	n, ok := t.(*types.Named)
+	if !ok {
+		return
+	}
+	var keys []string
+	for k, gf := range fv.u.db.GFields {
+		if gf.Struct == n.Obj().Name() {
+			keys = append(keys, k)
+		}
+	}
+	sortStrings(keys)
+	for _, k := range keys {
+		gf := fv.u.db.GFields[k]
+		hk := "G_" + gf.Struct + "_" + gf.Name
+		fv.setHeapK(st, hk, gf.Sort, fmt.Sprintf("(store %s %s %s)", fv.ghostHeap(st, gf), ref, fv.u.zero(gf.Sort)))
+	}
 }
